@@ -641,6 +641,25 @@ class CourierClient(metaclass=func_utils.SingletonMeta):
         f'Failed to connect to worker {self.address} after {delta_time:.2f}s.'
     )
 
+  def _confirm_alive(self):
+    """Waits for the answer of the heartbeat `is_alive` sent for a stale record.
+
+    A stale record only means that nothing was heard from the worker lately,
+    e.g., because the only call in flight is a long one: the worker is
+    disconnected when it does not answer the heartbeat either.
+    """
+    try:
+      self.wait_until_alive(deadline_secs=_HRTBT_INTERVAL_SECS)
+    except RuntimeError as e:
+      raise RuntimeError(f'Worker disconnected: {self}') from e
+
+  async def _async_confirm_alive(self):
+    """Async version of `_confirm_alive`."""
+    try:
+      await self.async_wait_until_alive(deadline_secs=_HRTBT_INTERVAL_SECS)
+    except RuntimeError as e:
+      raise RuntimeError(f'Async worker disconnected: {self}') from e
+
   def _is_heartbeat_fresh(self) -> bool:
     """Checks whether the heartbeat is stale."""
     still_pendings = []
@@ -698,7 +717,7 @@ class CourierClient(metaclass=func_utils.SingletonMeta):
     future = self.call(lazy_obj, return_exception=True, compress=True)
     while not future.done():
       if not self.is_alive:
-        raise RuntimeError(f'Worker disconnected: {self}')
+        self._confirm_alive()
       time.sleep(0)
     return self._result_or_exception(self._transport_result(future))
 
@@ -728,7 +747,7 @@ class CourierClient(metaclass=func_utils.SingletonMeta):
     future = self.call(lazy_obj, return_exception=True, compress=True)
     while not future.done():
       if not self.is_alive:
-        raise RuntimeError(f'Async worker disconnected: {self}')
+        await self._async_confirm_alive()
       await asyncio.sleep(0)
     pickled = self._transport_result(future)
     try:
